@@ -450,7 +450,7 @@ func init() {
 	vk.Register(&vk.Spec{
 		ID:    "C13",
 		Level: "exploration",
-		Rule: "each case is one round: 2..16 goroutines x 60..150 random ListenStream/ListenPacket/Close operations on 3 addresses (70% on one) + optionally an unbindable address and background dialers, at GOMAXPROCS 1/2/4/16; plus forced schedules (hook H3) that park the closer of the last handle before the manager callback while a listen on the same address runs; " +
+		Rule: "each case is one round: 2..16 goroutines x 60..150 random ListenStream/ListenPacket/Close operations on 3 addresses (70% on one) + optionally an unbindable address and background dialers, at GOMAXPROCS 1/2/4/16; plus forced schedules (hook H3) that park the closer of the last handle before the manager callback while a listen on the same address runs; teardown of 33..110 (address, kind) pairs with no listen in between; " +
 			"class = (goroutine bucket, GOMAXPROCS, unbindable address present) or forced point",
 		Assumptions: []string{"a stall is 15 s without any completed operation (normal round: < 100 ms); classification from the goroutine dump"},
 		Batches:     func(t string) int { return map[string]int{"quick": 6, "thorough": 32}[t] },
